@@ -4,7 +4,9 @@ mod conc;
 mod conn;
 mod gen;
 mod limit;
+mod polconc;
 mod seq;
+mod watch;
 
 use std::collections::HashMap;
 use std::fs;
@@ -38,30 +40,43 @@ fn main() {
             let item_limit: u32 = arg(&args, "--item-limit").unwrap_or("1024").parse().unwrap();
             let mem_limit: Option<u64> = arg(&args, "--mem-limit").map(|s| s.parse().unwrap());
             let prefix = arg(&args, "--prefix").unwrap_or("g").to_string();
-            let mut trace = String::new();
-            let mut obs = String::new();
-            let mut stats: HashMap<String, u64> = HashMap::new();
-            for c in 0..cases {
-                let case_seed = seed.wrapping_mul(1_000_003).wrapping_add(c as u64);
-                let mut g = seq::Gen::new(case_seed, &flavor, item_limit, steps);
-                let cfg = seq::CaseCfg {
-                    id: format!("{}-{}-{}-{}", prefix, flavor, seed, c),
-                    item_limit,
-                    mem_limit,
-                };
-                seq::run_case(&cfg, &mut |last, open| g.next(last, open), &mut trace, &mut obs);
-                for (k, v) in g.stats.iter() {
-                    *stats.entry(k.clone()).or_insert(0) += v;
+            let stall: u64 = arg(&args, "--stall").unwrap_or("20").parse().unwrap();
+            let tpath = arg(&args, "--trace").expect("--trace").to_string();
+            let opath = arg(&args, "--obs").expect("--obs").to_string();
+            let spath = arg(&args, "--stats").map(|s| s.to_string());
+            let (tp, op) = (tpath.clone(), opath.clone());
+            watch::guard(std::time::Duration::from_secs(stall), Some(tp), Some(op), move || {
+                let mut stats: HashMap<String, u64> = HashMap::new();
+                for c in 0..cases {
+                    let case_seed = seed.wrapping_mul(1_000_003).wrapping_add(c as u64);
+                    let mut g = seq::Gen::new(case_seed, &flavor, item_limit, steps);
+                    let cfg = seq::CaseCfg {
+                        id: format!("{}-{}-{}-{}", prefix, flavor, seed, c),
+                        item_limit,
+                        mem_limit,
+                    };
+                    let mut trace = String::new();
+                    let mut obs = String::new();
+                    seq::run_case(&cfg, &mut |last, open| g.next(last, open), &mut trace, &mut obs);
+                    {
+                        let mut d = watch::DONE.lock().unwrap();
+                        d.trace.push_str(&trace);
+                        d.obs.push_str(&obs);
+                    }
+                    for (k, v) in g.stats.iter() {
+                        *stats.entry(k.clone()).or_insert(0) += v;
+                    }
                 }
-            }
-            fs::write(arg(&args, "--trace").expect("--trace"), trace).unwrap();
-            fs::write(arg(&args, "--obs").expect("--obs"), obs).unwrap();
-            if let Some(p) = arg(&args, "--stats") {
-                let mut keys: Vec<_> = stats.iter().collect();
-                keys.sort();
-                let body: Vec<String> = keys.iter().map(|(k, v)| format!("\"{}\": {}", k, v)).collect();
-                fs::write(p, format!("{{{}}}\n", body.join(", "))).unwrap();
-            }
+                let d = watch::DONE.lock().unwrap();
+                fs::write(&tpath, &d.trace).unwrap();
+                fs::write(&opath, &d.obs).unwrap();
+                if let Some(p) = spath {
+                    let mut keys: Vec<_> = stats.iter().collect();
+                    keys.sort();
+                    let body: Vec<String> = keys.iter().map(|(k, v)| format!("\"{}\": {}", k, v)).collect();
+                    fs::write(p, format!("{{{}}}\n", body.join(", "))).unwrap();
+                }
+            });
         }
         "conn-gen" => {
             let seed: u64 = arg(&args, "--seed").unwrap_or("1").parse().unwrap();
@@ -80,6 +95,10 @@ fn main() {
                 let cfg = seq::CaseCfg { id: format!("{}-{}-{}-{}", prefix, flavor, seed, c), item_limit, mem_limit };
                 let stuck = conn::run_case(&cfg, &mut |last, open| g.next(last, open), &mut trace, &mut obs);
                 *stats.entry("stuck".to_string()).or_insert(0) += stuck;
+                if stuck > 0 {
+                    // a server task that never comes back keeps a core busy: stop here
+                    break;
+                }
                 for (k, v) in g.stats.iter() {
                     *stats.entry(k.clone()).or_insert(0) += v;
                 }
@@ -191,6 +210,32 @@ fn main() {
                 fs::write(p, format!("{{\"sweep_cases\": {}, \"sweep_steps\": {}, \"stress_ops\": {}, \"stuck\": {}}}\n", cases, steps, ops, stuck)).unwrap();
             }
         }
+        "pol-gen" => {
+            let seed: u64 = arg(&args, "--seed").unwrap_or("1").parse().unwrap();
+            let cases: usize = arg(&args, "--cases").unwrap_or("100").parse().unwrap();
+            let mut trace = String::new();
+            let mut obs = String::new();
+            let mut monitor = String::new();
+            let (stuck, steps) = polconc::run_cases(seed, cases, polconc::witnesses(), &mut trace, &mut obs, &mut monitor);
+            fs::write(arg(&args, "--trace").expect("--trace"), trace).unwrap();
+            fs::write(arg(&args, "--obs").expect("--obs"), obs).unwrap();
+            fs::write(arg(&args, "--monitor").expect("--monitor"), monitor).unwrap();
+            if let Some(p) = arg(&args, "--stats") {
+                fs::write(p, format!("{{\"pol_cases\": {}, \"conc_steps\": {}, \"stuck\": {}}}\n", cases + 1, steps, stuck)).unwrap();
+            }
+        }
+        "pol-replay" => {
+            let text = fs::read_to_string(arg(&args, "--in").expect("--in")).unwrap();
+            let mut trace = String::new();
+            let mut obs = String::new();
+            let mut monitor = String::new();
+            polconc::run_cases(1, 0, polconc::parse_trace(&text), &mut trace, &mut obs, &mut monitor);
+            fs::write(arg(&args, "--trace").expect("--trace"), trace).unwrap();
+            fs::write(arg(&args, "--obs").expect("--obs"), obs).unwrap();
+            if let Some(m) = arg(&args, "--monitor") {
+                fs::write(m, monitor).unwrap();
+            }
+        }
         "conc-replay" => {
             let text = fs::read_to_string(arg(&args, "--in").expect("--in")).unwrap();
             let mut trace = String::new();
@@ -237,11 +282,24 @@ fn main() {
         }
         "seq-replay" => {
             let text = fs::read_to_string(arg(&args, "--in").expect("--in")).unwrap();
-            let mut trace = String::new();
-            let mut obs = String::new();
-            seq::replay(&text, &mut trace, &mut obs);
-            fs::write(arg(&args, "--trace").expect("--trace"), trace).unwrap();
-            fs::write(arg(&args, "--obs").expect("--obs"), obs).unwrap();
+            let stall: u64 = arg(&args, "--stall").unwrap_or("20").parse().unwrap();
+            let tpath = arg(&args, "--trace").expect("--trace").to_string();
+            let opath = arg(&args, "--obs").expect("--obs").to_string();
+            let (tp, op) = (tpath.clone(), opath.clone());
+            watch::guard(std::time::Duration::from_secs(stall), Some(tp), Some(op), move || {
+                for (cfg, evs) in seq::parse_trace(&text) {
+                    let mut trace = String::new();
+                    let mut obs = String::new();
+                    let mut it = evs.into_iter();
+                    seq::run_case(&cfg, &mut |_, _| it.next(), &mut trace, &mut obs);
+                    let mut d = watch::DONE.lock().unwrap();
+                    d.trace.push_str(&trace);
+                    d.obs.push_str(&obs);
+                }
+                let d = watch::DONE.lock().unwrap();
+                fs::write(&tpath, &d.trace).unwrap();
+                fs::write(&opath, &d.obs).unwrap();
+            });
         }
         _ => {
             eprintln!("usage: verif-harness meta | seq-gen ... | seq-replay ...");
